@@ -34,6 +34,14 @@ func VerifC15Describe() {
 	ga := map[note.Accidental]int{note.Natural: 0, note.Sharp: 1, note.Flat: -1}[info.Applied.Accidental]
 	vf.Assert("applied-note-pitch-class", gl >= 0 && nat[gl]+ga == so)
 	vf.Assert("applied-note-octave-offset", int(info.OctaveDiff) == (total-so)/12)
+	// spelled natural when possible, otherwise with the accidental that was asked for —
+	// whatever the root's own accidental is
+	white := so == 0 || so == 2 || so == 4 || so == 5 || so == 7 || so == 9 || so == 11
+	if white {
+		vf.Assert("spelled-natural-when-possible", ga == 0)
+	} else {
+		vf.Assert("otherwise-the-requested-accidental", ga == map[bool]int{true: 1, false: -1}[sharp])
+	}
 	vf.Assert("root-echoed", info.Root == root)
 	// chord describe lists exactly the chord's attributes, each described the same way
 	ci := vf.NondetIntRange("chord", 0, vf.Param("C15.chords", 4)-1)
@@ -44,6 +52,9 @@ func VerifC15Describe() {
 	if cerr == nil && cinfo != nil && len(cinfo.Attributes) == len(want) {
 		for i := range want {
 			vf.Assert("chord-describe-attribute-order", cinfo.Attributes[i].Attribute.Name == want[i].Name)
+			// each listed note is what `attr describe` says for the same root and preference
+			one, oerr := NewAttribute(verifDict.Map).Describe(want[i].Name, root, sharp)
+			vf.Assert("chord-describe-agrees-with-attr-describe", oerr == nil && one != nil && cinfo.Attributes[i].Applied == one.Applied && cinfo.Attributes[i].OctaveDiff == one.OctaveDiff && cinfo.Attributes[i].Semitone == one.Semitone)
 		}
 	}
 	vf.Reach("end")
